@@ -14,9 +14,6 @@ From Coq Require Import Lia ZArith List Bool.
 Import ListNotations.
 Open Scope Z_scope.
 
-Definition noimpb (env : list (bytes * bytes)) (t : token) : bool :=
-  negb (beq (t_text t) IMPORT) && negb (beq (renv env (t_text t)) IMPORT).
-
 Definition fresh_from (env : list (bytes * bytes)) (i : nat) (toks : list token) : Prop :=
   forall j t, (i <= j)%nat -> nth_error toks j = Some t -> noimpb env t = true.
 
@@ -590,3 +587,13 @@ Lemma bounded_imports_witness :
   (exists bl, parse_tokens [] 4 wglobs [(1%N, Some [tk 1 1 "root"%string; tk 1 1 "/srv"%string])] (import_fuel 4 (length main) 13) main = POk bl).
 Proof. split; [vm_compute; discriminate|]. split; [vm_compute; reflexivity|]. eexists. vm_compute. reflexivity. Qed.
 End TotalExample.
+
+(* the executable reference of the soup stream (kind 1 cases) is covered by the theorem: whenever the
+   soup holds no import directive its answer is blocks or an error class *)
+Lemma parse_soup_result env globs files inp :
+  forallb (noimpb env) (lex inp) = true -> is_res (parse_soup env globs files inp) = true.
+Proof.
+  intro H. unfold parse_soup. rewrite H.
+  destruct (parse_total_no_imports env 10000 globs (lex_files files) (lex inp) (length (lex inp) + 4) H (Nat.le_refl _))
+    as [(bl & ->)|(e & ->)]; reflexivity.
+Qed.
